@@ -95,17 +95,7 @@ impl Publish {
 
     #[inline]
     pub fn ack(self, reason_code: codec::PublishAckReason) -> ProtocolMessageAck {
-        ProtocolMessageAck {
-            packet: self.0.packet_id.map_or(Pkt::None, |packet_id| {
-                Pkt::Packet(codec::Packet::PublishAck(codec::PublishAck {
-                    packet_id,
-                    reason_code,
-                    properties: codec::UserProperties::new(),
-                    reason_string: None,
-                }))
-            }),
-            disconnect: false,
-        }
+        self.ack_with(reason_code, codec::UserProperties::new(), None)
     }
 
     #[inline]
@@ -116,14 +106,7 @@ impl Publish {
         reason_string: Option<ByteString>,
     ) -> ProtocolMessageAck {
         ProtocolMessageAck {
-            packet: self.0.packet_id.map_or(Pkt::None, |packet_id| {
-                Pkt::Packet(codec::Packet::PublishAck(codec::PublishAck {
-                    packet_id,
-                    reason_code,
-                    properties,
-                    reason_string,
-                }))
-            }),
+            packet: self.ack_packet(reason_code, properties, reason_string),
             disconnect: false,
         }
     }
@@ -134,17 +117,27 @@ impl Publish {
     ) -> (ProtocolMessageAck, codec::Publish) {
         (
             ProtocolMessageAck {
-                packet: self.0.packet_id.map_or(Pkt::None, |packet_id| {
-                    Pkt::Packet(codec::Packet::PublishAck(codec::PublishAck {
-                        packet_id,
-                        reason_code,
-                        properties: codec::UserProperties::new(),
-                        reason_string: None,
-                    }))
-                }),
+                packet: self.ack_packet(reason_code, codec::UserProperties::new(), None),
                 disconnect: false,
             },
             self.0,
         )
+    }
+
+    /// PUBACK for QoS 1 publish, PUBREC for QoS 2 publish
+    fn ack_packet(
+        &self,
+        reason_code: codec::PublishAckReason,
+        properties: codec::UserProperties,
+        reason_string: Option<ByteString>,
+    ) -> Pkt {
+        self.0.packet_id.map_or(Pkt::None, |packet_id| {
+            let ack = codec::PublishAck { packet_id, reason_code, properties, reason_string };
+            if self.0.qos == codec::QoS::ExactlyOnce {
+                Pkt::Packet(codec::Packet::PublishReceived(ack))
+            } else {
+                Pkt::Packet(codec::Packet::PublishAck(ack))
+            }
+        })
     }
 }
